@@ -198,6 +198,17 @@ def _drive(gen):
 
 
 def run_history(ops):
+    if ops and ops[0] in ('PAIR', 'COPY', 'REENT', 'NEST', 'LONG', 'OWN', 'GENSYX'):
+        # the special sessions call the implementation in several places; whatever it raises there is a verdict about the
+        # implementation (feeding bytes never raises), never a crash of the check
+        try:
+            return _run_special(ops)
+        except Exception as e:      # noqa: BLE001
+            return [], f'a session of kind {ops[0]} raised {type(e).__name__}: {e} (feeding valid bytes and retrieving never raises)'
+    return _drive(_session(ops))
+
+
+def _run_special(ops):
     if ops and ops[0] == 'PAIR':
         return run_pair(ops[1], ops[2], ops[3])
     if ops and ops[0] == 'COPY':
